@@ -22,7 +22,7 @@ PER_PREFIX_TIMEOUT = 10
 
 def gen_case(rng, tier):
     kind = rng.choice(['bqm', 'bqm', 'qm', 'qm', 'cqm', 'dqm', 'cqm_member', 'cqm_member', 'cqm_legacy', 'cqm_legacy_member'])
-    c = {"kind": kind, "how": rng.choice(['bytes', 'bytes', 'file', 'load_bytes'])}
+    c = {"kind": kind, "how": rng.choice(['bytes', 'bytes', 'file', 'load_bytes', 'diskfile', 'diskfile', 'spooled', 'load_diskfile'])}
     wild = 0.15
     if kind == 'bqm':
         n = rng.randint(0, 5)
